@@ -31,6 +31,9 @@ def generate(seed, tier, k):
         doc["c07"]["direct"] = True
         doc["c07"]["x0"] = False
         doc["c07"]["clock_twin"] = False
+    # the documented update= callable of Newton's method: default (out of place), in place (the
+    # same field object and value arrays carry every iterate), or a copy that is then incremented
+    doc["update_kind"] = (None, None, "inplace", "copy")[gen.kpick(seed, "update-kind", 4)]
     return gen.maybe_units(doc)
 
 
